@@ -1149,10 +1149,13 @@ def FIBER(
 
     A = input.signal
 
+    def power(A):  # total instantaneous power; a one-polarisation field is a 1-D array (A[0], A[1] would be its first two samples)
+        return np.abs(A) ** 2 if A.ndim == 1 else np.abs(A[0]) ** 2 + np.abs(A[1]) ** 2
+
     h = (
         length
         if (beta_2 == 0 and beta_3 == 0) or gamma == 0
-        else phi_max / (gamma * (np.abs(A[0]) ** 2 + np.abs(A[1]) ** 2)).max()
+        else phi_max / (gamma * power(A)).max()
     )
 
     x_length = h
@@ -1171,7 +1174,7 @@ def FIBER(
             barra_progreso.update(100 * h / length)
 
         h = (
-            phi_max / (gamma * (np.abs(A[0]) ** 2 + np.abs(A[1]) ** 2)).max()
+            phi_max / (gamma * power(A)).max()
             if gamma != 0
             else length
         )
